@@ -238,6 +238,24 @@ def check_C16(run):
                        "also compared with the model; non-trivial = prefix contains a search")
     rel = vlib.build_engine("release")
     legal_cache = {}
+    move_cache = {}
+    castle_fens = ["bqnb1rkr/pp3ppp/3ppn2/2p5/5P2/P2P4/NPP1P1PP/BQ1BNRKR w HFhf - 2 9", "r3k2r/8/8/8/8/8/8/R3K2R w KQkq - 0 1",
+                   "r3k2r/8/8/8/8/8/8/R3K2R b KQkq - 0 1", "1rk4r/8/8/8/8/8/8/1RK4R w HBhb - 3 5", "rk2r3/8/8/8/8/8/8/RK2R3 w EAea - 0 1",
+                   "nrk2rbb/pppppppp/8/8/8/8/PPPPPPPP/NRK2RBB w KQkq - 0 1", "4k3/8/8/8/8/8/8/R4K1R w HA - 0 1"]
+    castle_moves = {}
+    cm = vlib.run_model_par([f"gen\t{f}" for f in castle_fens])
+    us = vlib.run_model_par([f"ucispec\t1\t{f}" for f in castle_fens])
+    for f, g, u in zip(castle_fens, cm, us):
+        strs = dict((it.split(":")[0], it.split(":")[1]) for it in u.split(",")) if u else {}
+        b = G.parse_board(f)
+        black = f.split(" ")[1] == "b"
+        res = []
+        for trip, st in strs.items():
+            fr, to, pr = (int(x) for x in trip.split("-"))
+            a_fr, a_to = (fr ^ 56, to ^ 56) if black else (fr, to)
+            if b.get(a_fr, "?") in "Kk" and b.get(a_to, "?") in "Rr" and b[a_fr].isupper() == b[a_to].isupper():
+                res.append(st)
+        castle_moves[f] = res
     jobs = []
     for i in range(120 if th else 30):
         prefix = [l for l in gen_script(rng, pool, legal_cache, timed=False) if l not in ("quit",)]
@@ -254,9 +272,23 @@ def check_C16(run):
                     frc = t[4] == "true"
         e = rng.choice(pool)
         fen = e["fen"]
+        if i % 3 == 0:
+            # Chess960 in force and a move list that castles in the active notation right after `position`
+            if not frc:
+                prefix.append("setoption name UCI_Chess960 value true")
+                frc = True
+            fen = rng.choice(castle_fens)
         if not frc and not std_geometry(fen):
             fen = "r3k2r/p1ppqpb1/bn2pnp1/3PN3/1p2P3/2N2Q1p/PPPBBPPP/R3K2R w KQkq - 0 1"
         posl = "position fen " + fen
+        mvs = move_cache.get((fen, frc))
+        if mvs is None:
+            mvs = first_moves([fen], "1" if frc else "0")[0]
+            move_cache[(fen, frc)] = mvs
+        if mvs and rng.random() < 0.8:
+            castl = [m for m in mvs if m[0] == "e" or abs(ord(m[0]) - ord(m[2])) >= 2 and m[1] == m[3] and m[1] in "18"]
+            kmoves = [m for m in castle_moves.get(fen, [])]
+            posl += " moves " + (rng.choice(kmoves) if kmoves and rng.random() < 0.8 else rng.choice(mvs))
         newgame = rng.random() < 0.7
         reports = ["print", "history", "eval"] + (["go perft 2", "go split 1", "go depth 3"] if newgame else [])
         tail = (["ucinewgame"] if newgame else []) + [posl] + reports
